@@ -245,9 +245,58 @@ type opsCase struct {
 	Probes  []uint64
 }
 
+// largeSparse returns several hundred small cells: the descendants at depth d
+// of the cell `base` whose index passes a drawn bit pattern (so that no
+// sibling group is complete and nothing collapses).
+func largeSparse(t *rapid.T, label string, base uint64, d int) []uint64 {
+	lsb := base & -base
+	if d > 5 {
+		d = 5
+	}
+	for lsb>>(2*uint(d)) == 0 && d > 0 {
+		d--
+	}
+	clsb := lsb >> (2 * uint(d))
+	first := base - lsb + clsb
+	seed := rapid.Uint64().Draw(t, label+".pattern") | 0x8000000000000001
+	var out []uint64
+	x := seed
+	for k := uint64(0); k < 1<<(2*uint(d)); k++ {
+		x ^= x << 13
+		x ^= x >> 7
+		x ^= x << 17
+		if x&3 != 0 && k%4 == 3 { // never the 4th sibling when the first three might be present
+			continue
+		}
+		if x&1 == 1 {
+			out = append(out, first+k*2*clsb)
+		}
+	}
+	return out
+}
+
 func genOps(t *rapid.T) opsCase {
 	a := genIDs(t, genSize(t), nil)
 	b := genIDs(t, genSize(t), a)
+	if rapid.IntRange(0, 7).Draw(t, "large") == 0 {
+		// one operand with several hundred cells (long skip-ahead searches in
+		// the merge), the other with a few cells around / inside / between them
+		base := pickBase(t, a, b)
+		for levelOf(base) > 24 {
+			base = ancestorAt(base, 24)
+		}
+		big := largeSparse(t, "large", base, 5)
+		if rapid.Bool().Draw(t, "largeInA") {
+			a = append(a, big...)
+			b = append(b, genIDs(t, 10, big)...)
+		} else {
+			b = append(b, big...)
+			a = append(a, genIDs(t, 10, big)...)
+		}
+		if rapid.IntRange(0, 2).Draw(t, "both") == 0 {
+			a = append(a, largeSparse(t, "large2", base, 5)...)
+		}
+	}
 	// a complete sibling staircase dealt between A and B: neither operand
 	// collapses on its own, their union collapses over several levels
 	for k := min(2, rapid.IntRange(0, 4).Draw(t, "dealt")); k > 0; k-- {
